@@ -258,12 +258,38 @@ func init() {
 			time.Sleep(time.Millisecond)
 		}
 	})
+	// wire accwrite <addr> <hex>: write on the connection most recently accepted at a harness TCP listener
+	// (the peer of a connection the proxy dialed talks back over it)
+	vReg("wire accwrite", func(a []string) string {
+		t, ok := vWireLn[unhx(a[0])]
+		if !ok {
+			return "no-listener"
+		}
+		t.Lock()
+		defer t.Unlock()
+		if len(t.conns) == 0 {
+			return "no-conn"
+		}
+		if _, err := t.conns[len(t.conns)-1].c.Write([]byte(unhx(a[1]))); err != nil {
+			return "send-error"
+		}
+		return "ok"
+	})
 	vReg("wire sleep", func(a []string) string {
 		ms, _ := strconv.Atoi(a[0])
 		time.Sleep(time.Duration(ms) * time.Millisecond)
 		return "ok"
 	})
 	vReg("wire end", func(a []string) string {
+		for k, t := range vWireLn {
+			t.ln.Close()
+			t.Lock()
+			for _, ac := range t.conns {
+				ac.c.Close()
+			}
+			t.Unlock()
+			delete(vWireLn, k)
+		}
 		for k, c := range vWireUDP {
 			c.Close()
 			delete(vWireUDP, k)
